@@ -558,6 +558,11 @@ impl Core {
                 find_node: matches!(c.request_type, RequestTypeSpecific::FindNode(_)),
                 signed: matches!(c.request_type, RequestTypeSpecific::GetSignedPeers(_)),
                 nodes: c.closest_responding_nodes.len(),
+                node_addrs: c
+                    .closest_responding_nodes
+                    .iter()
+                    .map(|n| n.address().to_string())
+                    .collect(),
                 tokens: c
                     .closest_responding_nodes
                     .iter()
